@@ -122,14 +122,17 @@ def provider_index(d):
             pidx["Provide:" + p["fn"]] = i
         elif p["kind"] == "value":
             pidx["Value:" + p["var"]] = i
-    fidx = {}
-    base = len(d["provs"])
-    for p in d["provs"]:
-        if p["kind"] == "struct":
-            for (fn, ft) in p["fields"]:
-                fidx[(p["type"], fn)] = base
-                base += 1
+    fidx = {(d["provs"][i]["type"], fn): k for (i, fn), k in (declgen.field_index(d) or {}).items()}
     return pidx, fidx
+
+
+def type_of_var(d, sv):
+    """type of the variable ('var', provider index, result index): a declared provider's result, or - when the struct read
+    from is itself a field of another expanded struct - that field's type"""
+    if sv[1] < len(d["provs"]):
+        return d["provs"][sv[1]]["provides"][sv[2]][0]
+    sti, sfn = [k for k, v in (declgen.field_index(d) or {}).items() if v == sv[1]][0]
+    return [ft for (fn_, ft) in d["provs"][sti]["fields"] if fn_ == sfn][0]
 
 
 def unalias(t, imports):
@@ -196,7 +199,7 @@ def observe_func(d, fn, imports=None):
                 sv = varmap.get(op["struct"])
                 if not sv or sv[0] != "var":
                     raise Unparsed("field read from non-provided %s" % op["struct"])
-                st = d["provs"][sv[1]]["provides"][sv[2]][0]
+                st = type_of_var(d, sv)
                 key = (st, op["field"])
                 if key not in fidx:
                     raise Unparsed("unknown field %s.%s" % key)
@@ -243,7 +246,7 @@ def observe_func(d, fn, imports=None):
                 pend, pend_ctx = [], None
             elif o == "field":
                 sv = src(op["struct"])
-                st = d["provs"][sv[1]]["provides"][sv[2]][0]
+                st = type_of_var(d, sv)
                 res.append(dict(pi=fidx[(st, op["field"])], args=[sv], waits=pend, closes=[], fall=False, async_=False,
                                 wait_ctx=pend_ctx, define=op.get("define", False), errret="", lhs=op["lhs"]))
                 pend, pend_ctx = [], None
